@@ -229,18 +229,19 @@ def _g2(ctx: Context) -> None:
     okd = False
     for n, c, recv, args in pp.method_calls(ctx, gcfg, T, "decrypt"):
         recv = _norm_ctor(recv)
-        okd = recv == call(glob(f"{pp.DEC}.__init__"), rkey) and args == [const(b""), const(hap.NONCES["PR-Msg02"]), call(attr(resp, "get"), const(hap.TLV_ENCRYPTED_DATA))]
+        _gi = pp.get_as_item  # reply.get(K) and reply[K] are the same item behind the presence gates checked above
+        okd = _gi(recv) == _gi(call(glob(f"{pp.DEC}.__init__"), rkey)) and [_gi(a_) for a_ in args] == [const(b""), const(hap.NONCES["PR-Msg02"]), _gi(call(attr(resp, "get"), const(hap.TLV_ENCRYPTED_DATA)))]
     ck.check("C01.G2", okd, "resume: the tag is checked under derive(pub_key | session_id, Pair-Resume-Response-Info) with nonce PR-Msg02", f"{ctx.fkey(g)}:resume-decrypt",
              "resume_m3: the auth tag is not checked under the response key / nonce of the specification", g.loc())
     # what it returns: (session id of the reply, closure over derive(pub|sid, Shared-Secret-Info))
     rt = T.of(gcfg, okr, okr.exprs[0])
-    oks = rt[0] == "tuple" and strip_sites(rt[1][0]) == sid and rt[1][1][0] == "closure"
+    oks = rt[0] == "tuple" and pp.get_as_item(strip_sites(rt[1][0])) == pp.get_as_item(sid) and rt[1][1][0] == "closure"
     if oks:
         cl = ctx.func(rt[1][1][1])
         ccfg = ctx.cfg(cl.qualname)
         crs = [n for n in ccfg.nodes if n.kind == "return" and n.exprs]
         ss = call(der, ("add", (pub, sid)), const(hap.RESUME_SHARED_SECRET_INFO))
-        oks = len(crs) == 1 and strip_sites(T.of(ccfg, crs[0], crs[0].exprs[0])) == call(glob(pp.HKDF), ss, ("param", cl.pos_params[0]), ("param", cl.pos_params[1]), kw=(("length", ("param", cl.pos_params[2])),))
+        oks = len(crs) == 1 and pp.get_as_item(strip_sites(T.of(ccfg, crs[0], crs[0].exprs[0]))) == pp.get_as_item(call(glob(pp.HKDF), ss, ("param", cl.pos_params[0]), ("param", cl.pos_params[1]), ("param", cl.pos_params[2])))
     ck.check("C01.G2", oks, "resume: new keys derive from derive(pub_key | session_id, Pair-Resume-Shared-Secret-Info)", f"{ctx.fkey(g)}:resume-secret",
              "resume_m3 does not return (session id, HKDF closure over the resumed shared secret)", g.loc())
 
@@ -378,12 +379,12 @@ def _k1(ctx: Context) -> None:
     ccfg = ctx.cfg(cl.qualname)
     crs = [n for n in ccfg.nodes if n.kind == "return" and n.exprs]
     okc = len(crs) == 1 and strip_sites(T.of(ccfg, crs[0], crs[0].exprs[0])) == call(
-        glob(pp.HKDF), shared, ("param", cl.pos_params[0]), ("param", cl.pos_params[1]), kw=(("length", ("param", cl.pos_params[2])),))
+        glob(pp.HKDF), shared, ("param", cl.pos_params[0]), ("param", cl.pos_params[1]), ("param", cl.pos_params[2]))
     ck.check("C01.K1", okc, "returned derive(salt, info, length) = hkdf_derive(X25519 shared secret of THIS exchange, salt, info, length)", f"{ctx.fkey(cl)}:closure",
              "get_session_keys: the returned derivation closure is not HKDF over this exchange's X25519 shared secret", cl.loc())
     sid = strip_sites(rt[1][0])
-    want_sid = call(("closure", cl.qualname), const(hap.HKDF_LABELS["resume-session-id"][0]), const(hap.HKDF_LABELS["resume-session-id"][1]), kw=(("length", const(8)),))
-    inl = call(glob(pp.HKDF), shared, const(hap.HKDF_LABELS["resume-session-id"][0]), const(hap.HKDF_LABELS["resume-session-id"][1]), kw=(("length", const(8)),))
+    want_sid = call(("closure", cl.qualname), const(hap.HKDF_LABELS["resume-session-id"][0]), const(hap.HKDF_LABELS["resume-session-id"][1]), const(8))
+    inl = call(glob(pp.HKDF), shared, const(hap.HKDF_LABELS["resume-session-id"][0]), const(hap.HKDF_LABELS["resume-session-id"][1]), const(8))
     ck.check("C01.K1", sid in (want_sid, inl), "session id = derive(Pair-Verify-ResumeSessionID-Salt/Info, 8 bytes) of the same secret", f"{ctx.fkey(f)}:session-id",
              f"get_session_keys: the resume session id is {show(sid, 200)}", ctx.loc(f, full))
     # shared secret and session key terms appear where expected (decrypt key) - checked in T1; nonce table
@@ -414,7 +415,7 @@ def _k1(ctx: Context) -> None:
             heads = [x[1][0] for x in t[1] if x[0] == "tuple"]
             okq = heads == [const(hap.TLV_STATE), const(hap.TLV_METHOD), const(hap.TLV_PUBLIC_KEY), const(hap.TLV_SESSION_ID), const(hap.TLV_ENCRYPTED_DATA)] and t[1][0][1][1] == const(hap.M[1]) and t[1][2][1][1] == pubp and t[1][3][1][1] == sidp
             m = t[1][1][1][1]
-            okq = okq and m[0] == "call" and m[1] == attr(const(hap.METHOD_RESUME), "to_bytes")
+            okq = okq and (m == const(bytes([hap.METHOD_RESUME])) or (m[0] == "call" and m[1] == attr(const(hap.METHOD_RESUME), "to_bytes")))
     ck.check("C01.K1", okq, "resume M1 = [State M1, Method Resume, PublicKey, SessionID, EncryptedData(tag)]", f"{ctx.fkey(g)}:request-shape", "resume_m1: the request items changed", g.loc())
 
 
